@@ -197,6 +197,11 @@ def gen_plan(rng, tier, index=0):
             actors.append({"kind": kind, "params": params, "seed": "none", "rows": ur, "twin_of": None, "group": g,
                            "restart": (r.sub("unseeded-restart", len(actors)).randint(0, ur - 1)
                                        if (kind in ("VK", "KOL") and ur >= 1 and r.sub("unseeded-restart?", len(actors)).chance(0.4)) else None)})
+    # in half of the programs every actor has its own numba thread count
+    rn = rng.sub("numba-per-actor")
+    if rn.chance(0.5):
+        for a_ in actors:
+            a_["numba"] = rn.randint(1, 4)
     # the interleaving: the scheduler picks the next actor; twins are never forced adjacent or apart
     r = rng.sub("sched")
     bag = []
@@ -386,6 +391,11 @@ def _execute(plan, keep_log=False):
             a = actors[i]
             if a.done():
                 return
+            if specs[i].get("numba") is not None:
+                # every actor works under its own numba thread count (ambient state the caller may set at any time): twins with the
+                # same seed regularly run under different counts
+                seams.set_numba_threads(specs[i]["numba"])
+                res.count("fault.numba_thread_count_set_per_actor")
             before = seams.ambient_digest()
             e = a.step()
             after = seams.ambient_digest()
